@@ -1033,123 +1033,124 @@ Definition do_top (o : top) (s : st) : list mop * st :=
       else bad s 52
   end.
 
+(* what one micro-op does: the micro-ops it pushes in front of the continuation, and the new state *)
+Definition handle (m : mop) (s : st) : list mop * st :=
+  match m with
+  | MTop o => do_top o s
+  | MActs [] => ([], s)
+  | MActs (a :: l) => let '(p, s1) := do_act a s in (p ++ [MActs l], s1)
+  | MPopFrame =>
+      match frames s with
+      | fr :: rest => (drops (f_loc fr), set_frames s rest)
+      | [] => ([], s)
+      end
+  | MEndBody uid f =>
+      match frames s with
+      | fr :: rest =>
+          let s1 := set_frames (emit s (EEnd uid)) rest in
+          let tail :=
+            match f with
+            | FNone => []
+            | FMeth a => match f_die fr with Some c => [MTerminate a c] | None => [] end
+            | FPrep a ready =>
+                match f_die fr with
+                | Some c => [MTerminate a c]
+                | None => if ready then [MToReady a] else []
+                end
+            end in
+          (drops (f_loc fr) ++ tail, s1)
+      | [] => ([], emit s (EBad 60))
+      end
+  | MRunItem ci => run_item ci s
+  | MDropItem ci => drop_item ci s
+  | MDropInner ci => (drops (ci_caps ci), emit s (EDrop (ci_uid ci) (ci_sq ci) (ci_call ci)))
+  | MDropVal v => drop_val v s
+  | MDropOwn a lg => drop_own a lg s
+  | MDropRef a => drop_ref a s
+  | MRetInvoke r m0 => ret_invoke r m0 s
+  | MEmit e => ([], emit s e)
+  | MTerminate a c => terminate a c s
+  | MLogClose a c =>
+      match aget (actors s) a with
+      | Some x => ([], log_rec s (a_logid x) LOGLEVEL_CLOSE 0 (marker_of c))
+      | None => ([], s)
+      end
+  | MToReady a =>
+      match aget (actors s) a with
+      | Some x =>
+          match a_state x with
+          | SPrep held =>
+              let x1 := mkActor (SReady [] [] 0%N) (oz (count_set_state (a_strong x) STATE_READY))
+                                (a_rc x) (a_notify x) (a_logid x) (a_freed x) in
+              (map MRunItem held, emit (upd_actor s a x1) (EReady a))
+          | _ => ([], emit s (EBad 61))
+          end
+      | None => ([], emit s (EModel M_UAF a))
+      end
+  | MNew t =>
+      let old := match dk s with DGlobal => mainq s | DInline => [] end in
+      let s1 := fresh_stakker (set_mainq (emit s (ENew t)) []) t in
+      (map MDropItem old, s1)
+  | MRunIdle idle =>
+      if idle then
+        match idleq s with
+        | c :: r => ([MRunItem c], set_idleq s r)
+        | [] => ([], s)
+        end
+      else ([], s)
+  | MRunMain t =>
+      let batch := mainq s in
+      let s1 := set_mainq s [] in
+      if t >? now s1 then
+        let '(fired, s2) := fire t (set_now s1 t) in
+        (map MRunItem (batch ++ fired), s2)
+      else (map MRunItem batch, s1)
+  | MLoop t =>
+      match mainq s with
+      | _ :: _ => (map MRunItem (mainq s) ++ [MLoop t], set_mainq s [])
+      | [] =>
+          match lazyq s with
+          | _ :: _ => (map MRunItem (lazyq s) ++ [MLoop t], set_lazyq s [])
+          | [] =>
+              let s1 := if t >? recreate s then set_recreate s (t + RECREATE_SECS * 1000) else s in
+              ([], emit s1 (ERunRet (negb (is_nil (idleq s1)))))
+          end
+      end
+  | MDrain i =>
+      if i >=? TEARDOWN_ROUNDS then
+        ([MDropFields], if is_nil (mainq s) then s else emit s (EModel M_DRAINLEFT 0))
+      else
+        match mainq s with
+        | [] => ([MDropFields], s)
+        | _ :: _ => (map MDropItem (mainq s) ++ [MDrain (i + 1)], set_mainq s [])
+        end
+  | MDropFields =>
+      let s0 := if ambiguous (timers s) then emit s (EModel M_AMBIG 1) else s in
+      let items := lazyq s0 ++ idleq s0 ++ map ti_ci (ti_sort (timers s0)) in
+      let s1 := set_tvars (set_timers (set_idleq (set_lazyq s0 []) []) []) [] in
+      (map MDropItem items ++ [MDropEnd], emit s1 EDropFields)
+  | MDropEnd =>
+      let s1 := if is_nil (mainq s) then s else emit s (EModel M_LIMBO 0) in
+      ([], emit (set_alive s1 false) EDropEnd)
+  | MDropAll =>
+      match amin (env s) with
+      | Some (h, v) => ([MDropVal v; MDropAll], set_env s (adel (env s) h))
+      | None => ([], s)
+      end
+  | MEpilogue =>
+      (* drop everything; two flush rounds (a fresh Stakker drops what was parked in the global queue; handles
+         bound by Drop handlers meanwhile are dropped again) *)
+      ([MTop TDropStakker; MDropAll; MTop (TNew 0); MTop TDropStakker; MDropAll;
+        MTop (TNew 0); MTop TDropStakker; MDropAll; MLeaks], emit s EEpilogue)
+  | MLeaks =>
+      let s1 := class_flags s in
+      ([], set_tr s1 (rev (leaks (rev (tr s1))) ++ tr s1))
+  end.
+
 Definition step (k : list mop) (s : st) : option (list mop * st) :=
   match k with
   | [] => None
-  | m :: k' =>
-      let '(pre, s') :=
-        match m with
-        | MTop o => do_top o s
-        | MActs [] => ([], s)
-        | MActs (a :: l) => let '(p, s1) := do_act a s in (p ++ [MActs l], s1)
-        | MPopFrame =>
-            match frames s with
-            | fr :: rest => (drops (f_loc fr), set_frames s rest)
-            | [] => ([], s)
-            end
-        | MEndBody uid f =>
-            match frames s with
-            | fr :: rest =>
-                let s1 := set_frames (emit s (EEnd uid)) rest in
-                let tail :=
-                  match f with
-                  | FNone => []
-                  | FMeth a => match f_die fr with Some c => [MTerminate a c] | None => [] end
-                  | FPrep a ready =>
-                      match f_die fr with
-                      | Some c => [MTerminate a c]
-                      | None => if ready then [MToReady a] else []
-                      end
-                  end in
-                (drops (f_loc fr) ++ tail, s1)
-            | [] => ([], emit s (EBad 60))
-            end
-        | MRunItem ci => run_item ci s
-        | MDropItem ci => drop_item ci s
-        | MDropInner ci => (drops (ci_caps ci), emit s (EDrop (ci_uid ci) (ci_sq ci) (ci_call ci)))
-        | MDropVal v => drop_val v s
-        | MDropOwn a lg => drop_own a lg s
-        | MDropRef a => drop_ref a s
-        | MRetInvoke r m0 => ret_invoke r m0 s
-        | MEmit e => ([], emit s e)
-        | MTerminate a c => terminate a c s
-        | MLogClose a c =>
-            match aget (actors s) a with
-            | Some x => ([], log_rec s (a_logid x) LOGLEVEL_CLOSE 0 (marker_of c))
-            | None => ([], s)
-            end
-        | MToReady a =>
-            match aget (actors s) a with
-            | Some x =>
-                match a_state x with
-                | SPrep held =>
-                    let x1 := mkActor (SReady [] [] 0%N) (oz (count_set_state (a_strong x) STATE_READY))
-                                      (a_rc x) (a_notify x) (a_logid x) (a_freed x) in
-                    (map MRunItem held, emit (upd_actor s a x1) (EReady a))
-                | _ => ([], emit s (EBad 61))
-                end
-            | None => ([], emit s (EModel M_UAF a))
-            end
-        | MNew t =>
-            let old := match dk s with DGlobal => mainq s | DInline => [] end in
-            let s1 := fresh_stakker (set_mainq (emit s (ENew t)) []) t in
-            (map MDropItem old, s1)
-        | MRunIdle idle =>
-            if idle then
-              match idleq s with
-              | c :: r => ([MRunItem c], set_idleq s r)
-              | [] => ([], s)
-              end
-            else ([], s)
-        | MRunMain t =>
-            let batch := mainq s in
-            let s1 := set_mainq s [] in
-            if t >? now s1 then
-              let '(fired, s2) := fire t (set_now s1 t) in
-              (map MRunItem (batch ++ fired), s2)
-            else (map MRunItem batch, s1)
-        | MLoop t =>
-            match mainq s with
-            | _ :: _ => (map MRunItem (mainq s) ++ [MLoop t], set_mainq s [])
-            | [] =>
-                match lazyq s with
-                | _ :: _ => (map MRunItem (lazyq s) ++ [MLoop t], set_lazyq s [])
-                | [] =>
-                    let s1 := if t >? recreate s then set_recreate s (t + RECREATE_SECS * 1000) else s in
-                    ([], emit s1 (ERunRet (negb (is_nil (idleq s1)))))
-                end
-            end
-        | MDrain i =>
-            if i >=? TEARDOWN_ROUNDS then
-              ([MDropFields], if is_nil (mainq s) then s else emit s (EModel M_DRAINLEFT 0))
-            else
-              match mainq s with
-              | [] => ([MDropFields], s)
-              | _ :: _ => (map MDropItem (mainq s) ++ [MDrain (i + 1)], set_mainq s [])
-              end
-        | MDropFields =>
-            let s0 := if ambiguous (timers s) then emit s (EModel M_AMBIG 1) else s in
-            let items := lazyq s0 ++ idleq s0 ++ map ti_ci (ti_sort (timers s0)) in
-            let s1 := set_tvars (set_timers (set_idleq (set_lazyq s0 []) []) []) [] in
-            (map MDropItem items ++ [MDropEnd], emit s1 EDropFields)
-        | MDropEnd =>
-            let s1 := if is_nil (mainq s) then s else emit s (EModel M_LIMBO 0) in
-            ([], emit (set_alive s1 false) EDropEnd)
-        | MDropAll =>
-            match amin (env s) with
-            | Some (h, v) => ([MDropVal v; MDropAll], set_env s (adel (env s) h))
-            | None => ([], s)
-            end
-        | MEpilogue =>
-            (* drop everything; two flush rounds (a fresh Stakker drops what was parked in the global queue; handles
-               bound by Drop handlers meanwhile are dropped again) *)
-            ([MTop TDropStakker; MDropAll; MTop (TNew 0); MTop TDropStakker; MDropAll;
-              MTop (TNew 0); MTop TDropStakker; MDropAll; MLeaks], emit s EEpilogue)
-        | MLeaks =>
-            let s1 := class_flags s in
-            ([], set_tr s1 (rev (leaks (rev (tr s1))) ++ tr s1))
-        end in
-      Some (pre ++ k', s')
+  | m :: k' => let '(pre, s') := handle m s in Some (pre ++ k', s')
   end.
 
 Inductive result := Done (t : list ev) | OutOfFuel (t : list ev).
